@@ -1039,7 +1039,14 @@ impl<Front: SocketHandler + std::fmt::Debug, L: ListenerHandler + L7ListenerHand
                         dead_backends.push(*token);
                     }
 
-                    if !client.readiness().filter_interest().is_empty() {
+                    // Only READABLE / WRITABLE are runnable here. A backend that hung up
+                    // (HUP / ERROR, both part of its interest) while parked on buffer
+                    // pressure has nothing to do until the frontend drains: its HUP bit
+                    // alone must not keep this loop spinning up to MAX_LOOP_ITERATIONS and
+                    // get the session closed with the response still buffered. The
+                    // dead-backend check above closes it once the pressure is gone.
+                    let runnable = client.readiness().filter_interest();
+                    if runnable.is_readable() || runnable.is_writable() {
                         all_backends_readiness_are_empty = false;
                     }
                 }
